@@ -3,16 +3,16 @@
 (* directory: one action per phase of cleanup.go:cleanup (in the code's order), run twice    *)
 (* (the second time with any assigned set, later or at the same time).  The initial states   *)
 (* are ALL abstract directories for two repository ids (decoded from the numbers in Sel)     *)
-(* x all assigned sets x shardMerging.  With Emit, one replay script per initial state is    *)
-(* printed: the directory, the parameters and the predicted directory after the first and    *)
-(* after every second cleanup.                                                               *)
+(* x all assigned sets x shardMerging.  With Emit, one record per explored cleanup is        *)
+(* printed (directory before, parameters, predicted directory after, violated clauses);      *)
+(* a replay script is an initial directory with its first cleanup and all second cleanups.   *)
 EXTENDS CleanupOps, Json
 
 CONSTANTS Sel,     \* initial-state numbers (subset of 0..NInit-1) given as an explicit set ...
           Lo, Hi,  \* ... plus the range Lo..Hi (a cfg file cannot hold an expression)
           Advs,    \* hours between first and second cleanup, e.g. {0, 25}
           Fix,     \* FALSE: the code as it is; TRUE: with the proposed patch
-          Emit     \* TRUE: print one replay script per initial state
+          Emit     \* TRUE: print one record per explored cleanup
 
 VARIABLES cs, pc, pre, run
 vars == <<cs, pc, pre, run>>
@@ -68,25 +68,14 @@ Decode(k) ==
              ELSE {[l |-> "i", f |-> CMP, mt |-> IdxMt, mf |-> \E e \in cm : e.tb, mem |-> cm]})
   IN [d |-> d, tmp |-> (c1 + c2 + k) % 2, A |-> A, m |-> m]
 
------------------------------------------------------------------------------
-\* prediction for one cleanup: what the code does, the clauses this violates, and (when
-\* different) what the patched code would do
-Pred(d, tmp, A, now, m) ==
-  LET r  == Run(d, tmp, A, now, m, FALSE, "asc")
-      rf == Run(d, tmp, A, now, m, TRUE, "asc")
-  IN [exp |-> r.d, tmp |-> r.tmp, viol |-> Viol(d, r.d, A, now),
-      hasalt |-> rf # r, alt |-> IF rf # r THEN rf.d ELSE {}]
-
 AsSeq(S) == SetToSortSeq(S, LAMBDA a, b : a < b)
-AdvSeq == AsSeq(Advs)
 
-Script(d, tmp, A, m) ==
-  LET p1 == Pred(d, tmp, A, 0, m) IN
-  [a |-> AsSeq(A), m |-> m, tmp |-> tmp, init |-> d, c1 |-> p1,
-   sec |-> [i \in 1..(4 * Len(AdvSeq)) |->
-              LET a2  == ASets[((i - 1) \div Len(AdvSeq)) + 1]
-                  adv == AdvSeq[((i - 1) % Len(AdvSeq)) + 1]
-              IN [a2 |-> AsSeq(a2), adv |-> adv, c2 |-> Pred(p1.exp, p1.tmp, a2, adv, m)]]]
+\* one record per explored cleanup (printed when its last phase is taken): directory before,
+\* parameters, predicted directory after, and the clauses of the statement this violates.
+\* checks/c32.py joins a first cleanup with the second cleanups that start from its result.
+Record(after) == [run |-> run, d0 |-> pre.d, t0 |-> pre.tmp, a |-> AsSeq(cs.A), now |-> cs.now,
+                  m |-> cs.m, d1 |-> after.d, t1 |-> after.tmp,
+                  viol |-> Viol(pre.d, after.d, cs.A, cs.now)]
 
 -----------------------------------------------------------------------------
 Init == \E k \in Sel \cup (Lo..Hi) :
@@ -95,14 +84,14 @@ Init == \E k \in Sel \cup (Lo..Hi) :
           /\ pre = [d |-> c.d, tmp |-> c.tmp]
           /\ pc = "scan" /\ run = 1
 
-DoScan == /\ pc = "scan" /\ cs' = Scan(cs) /\ pc' = "purge" /\ UNCHANGED <<pre, run>>
-          /\ ((Emit /\ run = 1) => PrintT(<<"SCRIPT", ToJson(Script(cs.d, cs.tmp, cs.A, cs.m))>>))
+DoScan    == pc = "scan" /\ cs' = Scan(cs) /\ pc' = "purge" /\ UNCHANGED <<pre, run>>
 DoPurge   == pc = "purge" /\ (\E o \in {"asc", "desc"} : cs' = Purge(cs, o)) /\ pc' = "tombs" /\ UNCHANGED <<pre, run>>
 DoTombs   == pc = "tombs" /\ cs' = DropTombs(cs) /\ pc' = "incons" /\ UNCHANGED <<pre, run>>
 DoIncons  == pc = "incons" /\ (\E o \in {"asc", "desc"} : cs' = Incons(cs, o)) /\ pc' = "restore" /\ UNCHANGED <<pre, run>>
 DoRestore == pc = "restore" /\ cs' = Restore(cs) /\ pc' = "trash" /\ UNCHANGED <<pre, run>>
 DoTrash   == pc = "trash" /\ (\E o \in {"asc", "desc"} : cs' = TrashAll(cs, o)) /\ pc' = "tmp" /\ UNCHANGED <<pre, run>>
-DoTmp     == pc = "tmp" /\ cs' = RemoveTmp(cs) /\ pc' = "done" /\ UNCHANGED <<pre, run>>
+DoTmp     == /\ pc = "tmp" /\ cs' = RemoveTmp(cs) /\ pc' = "done" /\ UNCHANGED <<pre, run>>
+             /\ (Emit => PrintT(<<"SCRIPT", ToJson(Record(cs'))>>))
 
 \* the next periodic cleanup: any assigned set, Advs hours later
 Again == /\ pc = "done" /\ run = 1
